@@ -42,12 +42,15 @@ var specStatus = map[string]int{
 }
 
 type c07 struct {
-	cur error
+	cur      error
+	pageMode bool
 	// wmode: "" = starting or resuming an upload fails with cur; "write" = the backend's writer is
 	// handed out and its Write fails with cur; "commit" = its Commit fails with cur
 	wmode  string
 	ch     *chain
 	chAuth *chain
+	chPage *chain // clients with a list page size of 2: listings take more than one request
+	chLoc  *chain // servers that know external locations for descriptors
 }
 
 // c07Writer is the backend's upload writer for the Writer* carriers.
@@ -91,6 +94,21 @@ func newC07() *c07 {
 		return &c07Writer{e: e, id: id}, nil
 	}
 	e.ch = newChain(f, 3, nil, nil)
+	e.chPage = newChain(f, 3, nil, &ociclient.Options{ListPageSize: 2})
+	e.chLoc = newChain(f, 3, &ociserver.Options{
+		LocationsForDescriptor: func(isManifest bool, desc ociregistry.Descriptor) ([]string, error) {
+			return []string{"https://cdn.example.invalid/" + string(desc.Digest)}, nil
+		},
+	}, nil)
+	// a listing whose first page is fine and whose second request fails with the error of the case
+	pageOne := func(start string) ociregistry.Seq[string] {
+		if start == "" && e.pageMode {
+			return ociregistry.SliceSeq([]string{"a", "b", "c"})
+		}
+		return ociregistry.ErrorSeq[string](e.cur)
+	}
+	f.Tags_ = func(ctx context.Context, repo, start string) ociregistry.Seq[string] { return pageOne(start) }
+	f.Repositories_ = func(ctx context.Context, start string) ociregistry.Seq[string] { return pageOne(start) }
 	// the same chain with registries that challenge (WWW-Authenticate on every 401) and clients that use
 	// the standard auth transport without credentials for these hosts
 	e.chAuth = newChain(f, 3, &ociserver.Options{
@@ -198,6 +216,8 @@ var c07WriterCarriers = map[string]string{"WriterWriteClose": "write", "WriterWr
 
 var c07Carriers = []string{"WriterResumeExplicit", "PushBlobChunkedResumeAsk", "WriterWriteClose", "WriterWriteCommit", "WriterBigWrite", "WriterCommit", "WriterWriteThenCommit", "GetBlob", "GetBlobRange", "GetManifest", "GetTag", "ResolveBlob", "ResolveManifest", "ResolveTag",
 	"PushManifest", "MountBlob", "PushBlob", "PushBlobChunked", "DeleteBlob", "DeleteManifest", "DeleteTag", "Repositories", "Tags", "Referrers"}
+
+func n0(s string) int { n, _ := strconv.Atoi(s); return n }
 
 // c07ResumeID is the upload ID the PushBlobChunkedResume carriers resume.
 var c07ResumeID = "someid"
@@ -317,12 +337,19 @@ func (e *c07) Impl(c Case) []string {
 	for i, l := range c.Lines {
 		out[i] = guard(func() string {
 			t := strings.Split(l, " ")
-			if len(t) < 5 || t[0] != "err" || (t[1] != "hop" && t[1] != "hopbig" && t[1] != "hopa") {
+			if len(t) < 5 || t[0] != "err" || (t[1] != "hop" && t[1] != "hopbig" && t[1] != "hopa" && t[1] != "hopp" && t[1] != "hopl") {
 				return "bad-op"
 			}
 			ch := e.ch
-			if t[1] == "hopa" {
+			e.pageMode = false
+			switch t[1] {
+			case "hopa":
 				ch = e.chAuth
+			case "hopp":
+				ch = e.chPage
+				e.pageMode = n0(t[2]) > 0 // directly on the backend there are no pages: the error comes first
+			case "hopl":
+				ch = e.chLoc
 			}
 			n, _ := strconv.Atoi(t[2])
 			err, rest, ok := parseErrExpr(t[4:])
@@ -448,6 +475,31 @@ func (*c07) Gen(rng *RNG, tier string) []Case {
 	for i := 0; i < na; i++ {
 		addA(pick(rng, c07Carriers), c07ErrExpr(rng))
 	}
+	// listings whose error arrives with the second page; reads through servers that know external locations
+	addV := func(verb, carrier, expr string) {
+		var ls []string
+		for n := 0; n <= 3; n++ {
+			ls = append(ls, fmt.Sprintf("err %s %d %s %s", verb, n, carrier, expr))
+		}
+		cases = append(cases, Case{Tag: verb, Lines: ls})
+	}
+	for _, s := range stdErrs {
+		std := "W " + tok(s.Code()) + " " + tok(s.(*ociregistry.WireError).Message) + " -"
+		for _, c := range []string{"Tags", "Repositories"} {
+			addV("hopp", c, std)
+		}
+		for _, c := range []string{"GetBlob", "GetBlobRange", "GetManifest", "GetTag", "ResolveBlob", "ResolveTag"} {
+			addV("hopl", c, std)
+		}
+	}
+	nv := 150
+	if tier == "thorough" {
+		nv = 4000
+	}
+	for i := 0; i < nv; i++ {
+		addV("hopp", pick(rng, []string{"Tags", "Repositories"}), c07ErrExpr(rng))
+		addV("hopl", pick(rng, []string{"GetBlob", "GetBlobRange", "GetManifest", "GetTag", "ResolveBlob", "ResolveManifest", "ResolveTag"}), c07ErrExpr(rng))
+	}
 	// error bodies around the client's size limit (8 KiB): up to and including the limit the error must
 	// keep its identity; beyond it the client cannot decode the body (recorded finding F24), and the
 	// model has no opinion ("hopbig" lines)
@@ -553,6 +605,13 @@ func (*c07) Oracle(c Case, impl []string) []Failure {
 		}
 		if i == 1 {
 			hop1 = o
+		}
+		// a server that knows external locations resolves the blob first (ResolveBlob) before it reads it:
+		// from the second hop on that question travels as a HEAD request, so the error of a blob read comes
+		// back body-less like that of a resolve (the recorded finding F11 applies to it)
+		head := head
+		if t0[1] == "hopl" && (carrier == "GetBlob" || carrier == "GetBlobRange") && i >= 2 {
+			head = true
 		}
 		// status: the one the specification assigns to the code, else the error's own, else 500
 		wantStatus := 500
